@@ -106,6 +106,72 @@ func pathConds(info *types.Info, par map[ast.Node]ast.Node, n ast.Node) []condFa
 					}
 				}
 			}
+		case *ast.ForStmt:
+			// inside the body the loop condition held when the iteration started; the conjuncts
+			// whose variables the loop never assigns still hold
+			if child == ast.Node(x.Body) && x.Cond != nil {
+				assigned := map[types.Object]bool{}
+				mark := func(n ast.Node) {
+					if n == nil {
+						return
+					}
+					ast.Inspect(n, func(m ast.Node) bool {
+						switch y := m.(type) {
+						case *ast.AssignStmt:
+							for _, l := range y.Lhs {
+								if id, ok := ast.Unparen(l).(*ast.Ident); ok {
+									assigned[usesObj(info, id)] = true
+								}
+							}
+						case *ast.IncDecStmt:
+							if id, ok := ast.Unparen(y.X).(*ast.Ident); ok {
+								assigned[usesObj(info, id)] = true
+							}
+						case *ast.UnaryExpr:
+							if y.Op == token.AND {
+								if id, ok := ast.Unparen(y.X).(*ast.Ident); ok {
+									assigned[usesObj(info, id)] = true
+								}
+							}
+						}
+						return true
+					})
+				}
+				mark(x.Body)
+				if x.Post != nil {
+					mark(x.Post)
+				}
+				for _, cj := range conjuncts(x.Cond) {
+					stable := true
+					ast.Inspect(cj, func(m ast.Node) bool {
+						switch y := m.(type) {
+						case *ast.Ident:
+							if o := usesObj(info, y); o != nil && assigned[o] {
+								stable = false
+							}
+						case *ast.CallExpr:
+							if builtinName(info, y) != "len" {
+								if tv, ok := info.Types[y.Fun]; !ok || !tv.IsType() {
+									stable = false // a call may observe state the loop changes
+								}
+							}
+						case *ast.SelectorExpr, *ast.IndexExpr:
+							// fields and elements can be written through other names
+							if _, isSel := m.(*ast.SelectorExpr); isSel {
+								if info.Selections[m.(*ast.SelectorExpr)] != nil {
+									stable = false
+								}
+							} else {
+								stable = false
+							}
+						}
+						return true
+					})
+					if stable {
+						out = append(out, condFact{cj, false})
+					}
+				}
+			}
 		case *ast.BinaryExpr:
 			// short-circuit evaluation: the right operand runs only if the left one allowed it
 			if child == ast.Node(x.Y) {
@@ -642,4 +708,31 @@ func sameLinear(a map[string]int64, ak int64, b map[string]int64, bk int64) bool
 		}
 	}
 	return true
+}
+
+// bitClearFact looks among the facts (with boolean locals expanded to their definitions) for one
+// that says `X & K == 0` for a named constant K; returns X and K.
+func bitClearFact(info *types.Info, defs map[types.Object]ast.Expr, facts []condFact) (ast.Expr, *types.Const, bool) {
+	for _, f := range expandFacts(info, defs, facts) {
+		l, op, r, ok := cmpFact(f.e, !f.neg)
+		if !ok || op != token.EQL {
+			continue
+		}
+		for _, pr := range [][2]ast.Expr{{l, r}, {r, l}} {
+			if v, isC := constInt(info, pr[1]); !isC || v != 0 {
+				continue
+			}
+			and, isAnd := ast.Unparen(pr[0]).(*ast.BinaryExpr)
+			if !isAnd || and.Op != token.AND {
+				continue
+			}
+			if k, isK := usesObj(info, and.Y).(*types.Const); isK {
+				return and.X, k, true
+			}
+			if k, isK := usesObj(info, and.X).(*types.Const); isK {
+				return and.Y, k, true
+			}
+		}
+	}
+	return nil, nil, false
 }
